@@ -11,20 +11,20 @@ SHARDS = {"quick": 1, "thorough": 8}
 N_HIST = {"quick": 500, "thorough": 3000}
 
 
-def conv(typ, v):
-    """v is a small integer numerator over 4."""
+def conv(typ, v, sc=1.0):
+    """v is a small integer numerator over 4; sc a power-of-two magnitude scale (exact in binary floating point)."""
     if typ == "int":
         return int(v)
     if typ == "float":
-        return v / 4.0
+        return v / 4.0 * sc
     if typ == "np64":
-        return np.float64(v / 4.0)
+        return np.float64(v / 4.0 * sc)
     if typ == "np32":
-        return np.float32(v / 4.0)
+        return np.float32(v / 4.0 * sc)
     if typ == "npint":
         return np.int64(v)
     if typ == "Q":
-        return Q(v, 4)
+        return Q(v, 4) * Q(sc)
     raise ValueError(typ)
 
 
@@ -43,7 +43,7 @@ def finite(v):
 def main(run):
     from ixai.utils.tracker import MultiValueTracker, WelfordTracker, ExponentialSmoothingTracker
     run.rule = ("random histories (length <= 60) of update dicts with changing key sets (late keys, omitted keys, empty dicts; "
-                "str/int/tuple/mixed keys) x value types {int,float,np.float64,np.float32,np.int64,Q} x base tracker "
+                "str/int/tuple/mixed keys) x value types {int,float,np.float64,np.float32,np.int64,Q} x magnitude scales {1, 2^-40, 2^-60, 2^40} x base tracker "
                 "{Welford, ExponentialSmoothing(alpha)}; after every update get() is compared with an independent per-key "
                 "reference (== for Q and int/Welford-free cases, tolerance otherwise), N and key persistence asserted, "
                 "get_normalized() checked for sum=1 / ratio preservation / zero-sum -> all 0.0 with no NaN/inf and a silent "
@@ -64,6 +64,7 @@ def main(run):
         else:
             alpha = rnd.choice([0.5, 0.25, 1.0, 0.125])
         mode = rnd.choice(["random", "random", "zero-sum-pairs", "all-zero", "single-key", "cancel-late"])
+        sc = rnd.choice([1.0, 1.0, 2.0 ** -40, 2.0 ** -60, 2.0 ** 40]) if typ in ("float", "np64", "np32", "Q") else 1.0
         base = ExponentialSmoothingTracker(alpha) if dyn else WelfordTracker()
         mt, twin = MultiValueTracker(base), MultiValueTracker(base)
         ref = RefMulti(dyn, Q(alpha) if dyn else None)
@@ -87,10 +88,10 @@ def main(run):
                 v = rnd.randrange(1, 9)
                 upd = {keys[0]: v} if t < 2 else {keys[0]: 0, keys[1]: 0}
             hist.append(upd)
-            real = {k: conv(typ, v) for k, v in upd.items()}
+            real = {k: conv(typ, v, sc) for k, v in upd.items()}
             mt.update(dict(real))
             # twin: same values for keys[0], different history for the others
-            twin.update({k: (v if k == keys[0] else conv(typ, 3)) for k, v in real.items()})
+            twin.update({k: (v if k == keys[0] else conv(typ, 3, sc)) for k, v in real.items()})
             ref.add({k: Q(tofrac(v)) for k, v in real.items()})
             if set(upd) - set(seen_keys):
                 changed = changed or bool(seen_keys)
@@ -98,7 +99,7 @@ def main(run):
             got = mt.get()
             exp = ref.get()
             tag = f"hist#{h} type={typ} base={'ES(%r)' % (alpha,) if dyn else 'Welford'} mode={mode} update {t + 1}"
-            replay = {"type": typ, "dynamic": dyn, "alpha": alpha, "history": hist}
+            replay = {"type": typ, "dynamic": dyn, "alpha": alpha, "history": hist, "magnitude_scale": sc}
             run.ok(kind="get")
             if set(got.keys()) != set(seen_keys) or set(mt().keys()) != set(seen_keys):
                 run.violation("key-set", f"{tag}: keys {sorted(map(repr, got))} expected {sorted(map(repr, seen_keys))}", replay)
@@ -108,7 +109,7 @@ def main(run):
             eps = 1.2e-7 if typ == "np32" else 2.3e-16
             for k in seen_keys:
                 e, g = exp[k], got[k]
-                okv = (g == e) if exactmode else abs(float(g) - float(e)) <= 64 * (t + 2) * eps * 21
+                okv = (g == e) if exactmode else abs(float(g) - float(e)) <= 64 * (t + 2) * eps * 21 * sc
                 if not okv:
                     run.violation("per-key-value", f"{tag}: key {k!r} reports {g!r}, reference {e!r}", replay)
                     ok_hist = False
@@ -146,7 +147,7 @@ def main(run):
                 s = sum(norm.values())
                 nt = 0 if exactmode else 1e-9 if typ != "np32" else 1e-3
                 ftot = float(sum(float(got[k]) for k in seen_keys))
-                well = exactmode or abs(ftot) > 1e-6    # float sums that cancel to ~0 are ill-conditioned: skip ratios
+                well = exactmode or abs(ftot) > 1e-6 * sc    # float sums that cancel to ~0 (relative to the data) are ill-conditioned: skip ratios
                 if well:
                     run.count("nonzero-sum-states")
                     good = (s == 1) if exactmode else abs(float(s) - 1) <= nt
